@@ -57,6 +57,7 @@ def task_sets(which: int):
         return [A.Foo(p=v) for v in (None, True, 2, 3.5, '1', 'é', A.Color.RED, A.Shade.RED, B.Color.RED)] + [
             A.Foo(p=[leaf, {'a': A.Color.GREEN, 'b': B.Leaf(v='x')}]), A.FooBar(p=leaf), B.Foo(p=leaf),
             A.JFoo(p={'k': (1, 2)}), A.P2(p=[1.5, float('inf')]), A.PFoo(p='post'),
+            A.Foo(p=float('nan')), A.Foo(p=['é', {'k': float('nan'), 'z': 'ü€'}], q=A.Leaf(v=float('nan'))), A.JFoo(p='日本'),
             A.Shape(kind='nested', n=3), A.Shape(kind='large', n=200), A.Shape(kind='enum', n=0), A.Shape(kind='none', n=0)]
     if which == 1:
         return [A.Foo(p=v, q=w) for v in (0, '', 'a/b') for w in (None, 2 ** 63, ' ')] + [
@@ -92,8 +93,14 @@ def cross_case(args):
         runs = []
         for i, (b, s, epoch) in enumerate(((b1, s1, 1), (b2, s2, 2))):
             open(wf, 'w').close()
+            env = py_env(s, VERIF_WORLD_FILE=wf, VERIF_EPOCH=epoch)
+            if i == 1 and s2 % 2 == 0:
+                # "a new process" may also live in another locale: the second interpreter of every
+                # other history runs in the C locale with UTF-8 mode and locale coercion switched off
+                env.update(LC_ALL='C', LANG='C', PYTHONUTF8='0', PYTHONCOERCECLOCALE='0')
+                env.pop('PYTHONIOENCODING', None)
             rc, so, se = run_isolated([sys.executable, '-m', 'verif_lt.props.c06', '--dump', sd, b, str(which)],
-                                      env=py_env(s, VERIF_WORLD_FILE=wf, VERIF_EPOCH=epoch), timeout=180)
+                                      env=env, timeout=180)
             if rc != 0:
                 return [(f'run-failed:{b}', f'run {i + 1} with backend {b} (seed {s}) exited {rc}: {se[-600:]}', 1)], 0
             started = [json.loads(l)[3][2] for l in open(wf) if l.strip() and json.loads(l)[2] == 'start']
